@@ -44,7 +44,7 @@ def handleConvert : Handler := fun op args =>
       | none => "NIL")
   | "cv.parse", [s] => do
     let s ← Sexp.decStr s
-    pure (resTag (fun n => toString n.toSexp) (Num.parse512 s))
+    pure (resTag (fun n => toString n.toSexp) (parseNumber s))
   | "cv.hash", [v] => do
     let v ← Value.ofSexp v
     pure (resTag toString (hashC v.ty v.v))
